@@ -201,6 +201,45 @@ def zero_mass_ob(base, key, k=None):
               f"{T}::TruncatedGaussianMeasure.integral", group="zero-mass")
 
 
+def pdf_moments_ob(base, via):
+    """the normalised truncated density has the exact truncated mean / variance / standard deviation (textbook closed forms)"""
+    def run():
+        nf.ST.generic_nonzero = True
+        I = build.new_interp()
+        if via == "get_density":
+            t, u, a, b = make_trunc(I, base)
+            p = I.call_method(t, "get_density", [])
+        else:
+            p, u, a, b = make_trunc(I, base, "TruncatedGaussianPDF")
+        # moments of the normalised base density (that this density is the normalised base measure is the pdf/* obligation)
+        dens = p.f["density"]
+        mu = dens.f["mu"]
+        S1 = Val(dens.f["Sigma"].axes[:2], dens.f["Sigma"].terms)
+        L1 = Val(dens.f["Lambda"].axes[:2], dens.f["Lambda"].terms)
+        sl, sg = nf.elementwise("Sqrt", L1), nf.elementwise("Sqrt", S1)
+        al, be = nf.mul(nf.add(a, mu, -1), sl), nf.mul(nf.add(b, mu, -1), sl)
+        Pa, Pb = nf.elementwise("Phi", al), nf.elementwise("Phi", be)
+        pa, pb = nf.elementwise("phi", al), nf.elementwise("phi", be)
+        rZ = nf.elementwise("Recip", nf.add(Pb, Pa, -1))
+        dphi = nf.mul(nf.add(pa, pb, -1), rZ)
+        mean_ref = nf.add(mu, nf.mul(dphi, sg))
+        var_ref = nf.mul(S1, nf.add(nf.add(nf.add(nf.scale(dphi, 0), nf.const(1)), nf.mul(nf.add(nf.mul(be, pb), nf.mul(al, pa), -1), rZ), -1), nf.mul(dphi, dphi), -1))
+        d = []
+        for name, ref in (("get_mean", mean_ref), ("get_variance", var_ref)):
+            got = I.call_method(p, name, [])
+            dd = nf.diff(got, ref, what=name)
+            if dd and nf.zero_mod_recip(nf.add(got, ref, -1)):
+                dd = []
+            d += [(name,) + tuple(q) for q in dd[:4]]
+        std = I.call_method(p, "get_std", [])
+        dd = nf.diff(std, nf.elementwise("Sqrt", I.call_method(p, "get_variance", [])), what="get_std")
+        d += [("get_std",) + tuple(q) for q in dd[:4]]
+        return d, dict(funcs=funcs_of(I))
+    return Ob(f"pdf-moments/{base}/{via}", run,
+              "get_mean == mu + sigma (phi(alpha)-phi(beta))/Z, get_variance == sigma^2 (1 - (beta phi(beta) - alpha phi(alpha))/Z - ((phi(alpha)-phi(beta))/Z)^2), get_std == sqrt(get_variance)",
+              f"{T}::TruncatedGaussianPDF.get_mean", group="pdf-moments")
+
+
 def pdf_ob(base, via):
     def run():
         I = build.new_interp()
@@ -242,6 +281,7 @@ def obligations(tier):
                 obs.append(homogeneity_ob(base, key))
         for via in ("get_density", "direct"):
             obs.append(pdf_ob(base, via))
+            obs.append(pdf_moments_ob(base, via))
         for key in ("1", "x", "x**2"):
             obs.append(closed_form_ob(base, key))
     for base in ("cold", "pdf"):
@@ -255,7 +295,7 @@ def obligations(tier):
     return obs
 
 
-FLOORS = {"group:table": 1, "group:indicator": 6, "group:homogeneity": 6, "group:pdf": 6, "group:closed-form": 9, "group:power": 12, "group:zero-mass": 10}
+FLOORS = {"group:table": 1, "group:indicator": 6, "group:homogeneity": 6, "group:pdf": 6, "group:closed-form": 9, "group:power": 12, "group:zero-mass": 10, "group:pdf-moments": 6}
 LEVEL = "other"
 EXPLANATION = ("Partial: dispatch table, support indicator, degree-one homogeneity of integrate('1'|'x'|'x**2') in the base mass and that the normalised variant evaluates the "
                "NORMALISED base density, for finite generic limits; closed forms of the integrals of 1, x, x**2 in Phi / phi; integrate('x**k') for every k in 0..6 (lax.scan unrolled) "
